@@ -1,0 +1,23 @@
+//go:build verif
+
+// Contracts for package transform (kvc). Comment-only file.
+package transform
+
+//@ func New
+//@   mode int
+//@   trusted
+//@   ensures result1 == nil ==> result0 != nil && fresh(result0)
+//@   ensures result1 != nil ==> result0 == nil
+//@   modifies nothing
+
+//@ func (*ByteTransformSequence) Inverse
+//@   mode int
+//@   trusted
+//@   ensures result2 == nil ==> result1 <= len(dst) && result0 <= len(src)
+//@   modifies src[*], dst[*]
+
+//@ func (*ByteTransformSequence) Forward
+//@   mode int
+//@   trusted
+//@   ensures result2 == nil ==> result1 <= len(dst) && result0 <= len(src)
+//@   modifies this.skipFlags, src[*], dst[*]
